@@ -345,6 +345,22 @@ fn gen(bits: u32) -> Vec<Ty> {
             main.subs.push(Sub { name: "t2", size: None, ty: "Top2".into(), ty_txt: "Top2".into() });
         }
     }
+    if generic && f(12) {
+        // an interface whose submodule is itself an instantiated generic; the argument declares the very same field
+        let mut wrap = Ty { name: "Wrap".into(), header: "Wrap(W <- Leaf)".into(), ..Default::default() };
+        wrap.subs.push(Sub { name: "w", size: None, ty: "Leaf".into(), ty_txt: "W".into() });
+        types.push(wrap);
+        let mut iface = Ty { name: "IfaceW".into(), header: "IfaceW".into(), ..Default::default() };
+        iface.subs.push(Sub { name: "m", size: None, ty: "Wrap".into(), ty_txt: "Wrap(Leaf)".into() });
+        types.push(iface);
+        let mut imp = Ty { name: "ImplW".into(), header: "ImplW".into(), ..Default::default() };
+        imp.subs.push(Sub { name: "m", size: None, ty: "Wrap".into(), ty_txt: "Wrap(Leaf)".into() });
+        types.push(imp);
+        let mut gen2 = Ty { name: "Gen2".into(), header: "Gen2(G <- IfaceW)".into(), ..Default::default() };
+        gen2.subs.push(Sub { name: "g", size: None, ty: "ImplW".into(), ty_txt: "G".into() });
+        types.push(gen2);
+        main.subs.push(Sub { name: "gx", size: None, ty: "Gen2".into(), ty_txt: "Gen2(ImplW)".into() });
+    }
     if f(8) {
         main.conns.push(Conn { a: acc("a/g"), b: acc("m/up"), link: false });
     }
@@ -384,6 +400,10 @@ macro_rules! registry {
             .symbol_fn("Base", |_| Sym("Base".into()))
             .symbol_fn("Top", |_| Sym("Top".into()))
             .symbol_fn("Top2", |_| Sym("Top2".into()))
+            .symbol_fn("Wrap", |_| Sym("Wrap".into()))
+            .symbol_fn("IfaceW", |_| Sym("IfaceW".into()))
+            .symbol_fn("ImplW", |_| Sym("ImplW".into()))
+            .symbol_fn("Gen2", |_| Sym("Gen2".into()))
     };
 }
 
@@ -531,7 +551,7 @@ fn mutate(doc: &str, li: usize, a: usize, b: usize, m: &str) -> String {
 /// with an error (the statement's list of error causes)
 const SEM: &[&str] = &[
     "dangling_type", "dangling_gate", "dangling_submodule", "index_out_of_bounds", "index_on_non_cluster", "zero_sized_cluster", "unequal_cluster_sizes",
-    "inherit_cycle", "submodule_cycle", "wrong_arg_count", "args_on_non_generic", "non_conforming_arg", "generic_type_as_arg", "binding_with_args", "dangling_link", "unknown_entry", "unclosed_type_clause",
+    "inherit_cycle", "submodule_cycle", "wrong_arg_count", "args_on_non_generic", "non_conforming_arg", "generic_type_as_arg", "binding_with_args", "dangling_link", "unknown_entry", "unclosed_type_clause", "arg_differs_in_nested_generic_argument",
 ];
 
 fn sem_mutant(bits: u32, which: &str) -> Option<String> {
@@ -572,6 +592,11 @@ fn sem_mutant(bits: u32, which: &str) -> Option<String> {
             post = Some(("link: L", "link: K"));
         }
         "unknown_entry" => entry = "Nope",
+        "arg_differs_in_nested_generic_argument" => {
+            // the argument's field has the same generic type as the interface's, instantiated differently
+            let Some(i) = t.iter().position(|x| x.name == "ImplW") else { return None };
+            t[i].subs[0].ty_txt = "Wrap(Leaf2)".into();
+        }
         "unclosed_type_clause" if generic => t[main].subs[0].ty_txt = "Mid(Leaf".into(),
         "unclosed_type_clause" => return None,
         _ => unreachable!(),
@@ -591,7 +616,7 @@ impl Property for C18 {
     }
     fn rule(&self, tier: Tier) -> String {
         format!(
-            "conformance: all 2^{NBITS} = 65536 documents of the feature-bit grammar (cluster gates, generic Mid with one or two type arguments (bound to different types), inherited argument type, several fields typed with the same parameter, submodule clusters incl. size one, a type inheriting gates / submodules / connections with and without own additions, a second level of inheritance, nested/cluster/indexed connections with and without link, inherited cluster element type, cluster-to-cluster and indexed connections at the top level, the same gate pair stated twice: verbatim, as an indexed restatement of a group statement, and by a child type restating an inherited connection, endpoints three segments deep (a grandchild's gate, plain and through clusters)) built with nodes_from_ndl and compared with a reference elaborator (modules with registered software, gate clusters, connections incl. link metrics and queue size); \
+            "conformance: all 2^{NBITS} = 65536 documents of the feature-bit grammar (cluster gates, generic Mid with one or two type arguments (bound to different types), inherited argument type, several fields typed with the same parameter, submodule clusters incl. size one, a type inheriting gates / submodules / connections with and without own additions, a second level of inheritance, a generic whose interface contains an instantiated generic submodule, nested/cluster/indexed connections with and without link, inherited cluster element type, cluster-to-cluster and indexed connections at the top level, the same gate pair stated twice: verbatim, as an indexed restatement of a group statement, and by a child type restating an inherited connection, endpoints three segments deep (a grandchild's gate, plain and through clusters)) built with nodes_from_ndl and compared with a reference elaborator (modules with registered software, gate clusters, connections incl. link metrics and queue size); \
              semantic mutations: {} single-point mutations (one per error cause of the statement) applied to {} generated documents, each must yield an error; \
              textual mutations: every scalar of {} base documents replaced by each of {} garbled/dangling tokens, outcome must be a network or an error, never a panic; \
              non-trivial = document that has at least one connection (conformance) or every mutated document (totality)",
